@@ -6,11 +6,12 @@ PAST=1000000000
 
 class Sublayout(PipelineBase):
     name='C15.sublayout'
+    outer_name='b.r'
     def __init__(self,inner_steps=2,**kw):
         PipelineBase.__init__(self,**kw); self.inner_steps=inner_steps
         self.bounds={'outer_layout':'1 step (threshold 1) delegated to a sub-layout filed under F0 (authorized) or F1 (in the key table, not authorized for the step)',
                      'sub_layout':'%d inner step(s), 1 inner functionary; 1-2 signatures labelled F0/F1 with free made_by/intact/over; expiry in the future or the past'%inner_steps,
-                     'inner_links':'per inner step: absent / present in the dedicated sub-directory with free signature validity; decoy links for the inner steps may sit in the parent directory',
+                     'inner_links':'per inner step: absent / present in the dedicated sub-directory with free signature validity; decoy links for the inner steps may sit in the parent directory or in a sibling-looking directory; the delegated step is named "b.r" (dotted)',
                      'summary':'requested name "final"; inner links carry distinct materials/products/commands/return values','hash_map_iteration':'every permutation'}
         self.witnesses=['ok_delegated','err_inner_unsigned','err_inner_expired','err_inner_link_missing','err_only_decoys']
     def mk_args(self,run):
@@ -23,8 +24,11 @@ class Sublayout(PipelineBase):
             mb=z3.BitVec('imb_%d'%j,8); run.solver.add(z3.ULE(mb,3))
             isigs.append(SigD(lab,mb,z3.Bool('iin_%d'%j),z3.Bool('iov_%d'%j)))
         inner_expired=bool(run.pick(2,'inner_expired'))
-        isteps=[]; sub=(('s0',filed),); dirs={():[],sub:[]}; ilinks=[]
-        decoys=bool(run.pick(2,'decoys'))
+        OUT=self.outer_name
+        isteps=[]; sub=((OUT,filed),); dirs={():[],sub:[]}; ilinks=[]
+        decoys=run.pick(3,'decoys')        # 0 none, 1 in the parent directory, 2 in a sibling-looking directory <stem>.<prefix>
+        sib=((OUT.split('.')[0],filed),)
+        if decoys==2: dirs[sib]=[]
         for i in range(self.inner_steps):
             nm='i%d'%i
             isteps.append(StepD(nm,1,[G]))
@@ -32,11 +36,11 @@ class Sublayout(PipelineBase):
             present=bool(run.pick(2,'ilink%d'%i))
             sd=SigD(G,z3.BitVec('lmb_%d'%i,8),z3.Bool('lin_%d'%i),z3.Bool('lov_%d'%i)); run.solver.add(z3.ULE(tbv(sd.made_by),3))
             if present: dirs[sub].append(FileD(nm,G,BlockD('link',ld,[sd])))
-            if decoys: dirs[()].append(FileD(nm,G,BlockD('link',LinkD(nm,{'decoy':[9]},{'decoy':[9]}),[SigD(G,G)])))
+            if decoys: dirs[() if decoys==1 else sib].append(FileD(nm,G,BlockD('link',LinkD(nm,{'decoy':[9]},{'decoy':[9]}),[SigD(G,G)])))
             ilinks.append((ld,sd,present))
         inner=LayoutD([G],isteps,expires=PAST if inner_expired else FAR_FUTURE)
-        dirs[()].append(FileD('s0',filed,BlockD('layout',inner,isigs)))
-        outer=LayoutD([F0,F1],[StepD('s0',1,[F0])])
+        dirs[()].append(FileD(OUT,filed,BlockD('layout',inner,isigs)))
+        outer=LayoutD([F0,F1],[StepD(OUT,1,[F0])])
         lb=BlockD('layout',outer,[SigD(OWN,OWN)]); caller=[(OWN,OWN)]
         args=self.install(run,lb,caller,dirs,step_name='final')
         return args,{'lb':lb,'caller':caller,'dirs':dirs,'filed':filed,'isigs':isigs,'inner_expired':inner_expired,'ilinks':ilinks,'decoys':decoys}
